@@ -1,0 +1,9 @@
+//go:build verif
+
+package errors
+
+// Library contracts used by the verification machinery in /verif (build tag "verif").
+
+//@ func fmt.Errorf(format, a) (err)
+//@   trusted library contract
+//@   ensures nonnil: err != nil
